@@ -202,6 +202,13 @@ let model_line (e : env) (w : int) (line : string) : string =
         | en :: cf :: uc :: hx :: r' -> (int_of_string en, int_of_string cf, int_of_string uc, unhex hx) :: calls (k - 1) r'
         | _ -> failwith "hist" in
       id ^ " " ^ hist_model e kind (int_of_string cap) (calls (int_of_string n) rest)
+  | "R" :: id :: kind :: _cap :: n :: rest ->
+      (* a recycled buffer: the model is a function of the arguments of the last call alone *)
+      let rec last k r = match r with
+        | en :: cf :: uc :: hx :: r' -> if k <= 1 then (en, cf, uc, hx) else last (k - 1) r'
+        | _ -> failwith "recycle" in
+      let (en, cf, uc, hx) = last (int_of_string n) rest in
+      id ^ " " ^ api_model e kind (int_of_string en) (int_of_string cf) (int_of_string uc) (unhex hx)
   | "S" :: id :: be :: cls :: _align :: hx :: _ ->
       id ^ " " ^ scan_model w (int_of_string be) (int_of_string cls) (unhex hx)
   | "K" :: id :: which :: hx :: _ -> id ^ " " ^ kernel_model w which (unhex hx)
